@@ -62,6 +62,9 @@ def build_list(case):
                         x[1] = 1.0
                 else:
                     x = gen_data(rng, nprng, len(il), 'white') + 1.3
+                if case.get('frozen') and n == names[-1] and len(names) > 1:
+                    # measured on this replica, but every sample identical (a frozen charge): still measured
+                    x = np.full(len(il), float(case['frozen']))
                 samples.append(x)
                 idl.append(il)
             b = pe.Obs(samples, names, idl=idl)
@@ -262,6 +265,8 @@ def gen_case(ctx):
         case['cov'] = rng.choice([None, None, 1, 2, 3])
         case['cancel'] = rng.random() < 0.5
         case['mean_hit'] = case['data'] == 'count' and rng.random() < 0.15
+        if rng.random() < 0.2 and any(v > 1 for v in case['nrep'].values()):
+            case['frozen'] = rng.choice([0.0, 1.0, 2.0, -1.0])
     return case
 
 
